@@ -906,6 +906,22 @@ pub fn gen(rng: &mut Rng, tier: Tier, out: &mut Vec<String>) {
             out.push(format!("seq newwith 3 2 isub T F 0 0 {kind} {a} {b} dims end"));
         }
     }
+    // ---- LARGE strided views (16 000..40 000 elements spanned) copied between views of EQUAL stride that are
+    // narrower than the stride: bulk-copy fast paths gated on a minimum size show only here
+    for i in 0..(if q { 4 } else { 40 }) {
+        let (rw, rh) = (130 + rng.below(80) as u32, 110 + rng.below(60) as u32);
+        let (l, t) = (1 + rng.below(6) as u32, 1 + rng.below(4) as u32);
+        let (w, h) = (rw - l - 1 - rng.below(6) as u32, rh - t - 1 - rng.below(4) as u32);
+        let n = (h - 1) * rw + w;
+        if i % 2 == 0 {
+            out.push(format!("seq new {rw} {rh} sub P {l} {t} {} {} copys {w} {h} {rw} {n} end", l + w, t + h));
+        } else {
+            out.push(format!(
+                "seq new {rw} {rh} sub P {l} {t} {} {} copym {} {} {rw} {} 1 1 {} {} end",
+                l + w, t + h, w + 2, h + 2, (h + 1) * rw + w + 2, w + 1, h + 1
+            ));
+        }
+    }
     // ---- random long histories on larger buffers; a separate mostly-malformed stream
     for _ in 0..(if q { 4000 } else { 60_000 }) {
         out.push(random_history(rng, 16, 15));
